@@ -158,7 +158,7 @@ pub fn c16_cip_and_flatstack() {
     sym::forget((orig, copy, twin));
 }
 
-// @h prop=C16 tier=thorough kind=proof mem=26 timeout=2400 inst="ColumnsRegion<MirrorRegion<u8>>" bounds="one stored row of 1 symbolic cell; continuation: a 2-cell row" desc="rows read identically; the continuation row (wider than all before) gets the same index and cells"
+// @h prop=C16 tier=thorough kind=proof engine=paths mem=16 memw=16 timeout=1500 inst="ColumnsRegion<MirrorRegion<u8>>" bounds="one stored row of 1 symbolic cell; continuation: a 2-cell row" desc="rows read identically; the continuation row (wider than all before) gets the same index and cells"
 #[cfg(feature = "thorough")]
 #[cfg_attr(kani, kani::proof, kani::unwind(8))]
 pub fn c16_columns() {
